@@ -52,6 +52,9 @@ fn alphabet(prefix: &str, t: Comp) -> Vec<Act> {
             a.push(Act::Tok(Tree::L(vec![Tree::ins("CODE.QUOTE"), Tree::I(7)])));
             a.push(Act::Tok(Tree::L(vec![Tree::ins("CODE.QUOTE"), Tree::L(vec![Tree::I(8), Tree::name("Y")])])));
             a.push(Act::Tok(Tree::L(vec![Tree::ins("CODE.QUOTE"), big_body()])));
+            // a bare name as value: aliases, self-aliases, alias cycles
+            a.push(Act::Tok(Tree::L(vec![Tree::ins("CODE.QUOTE"), Tree::name("Y")])));
+            a.push(Act::Tok(Tree::L(vec![Tree::ins("CODE.QUOTE"), Tree::name("X")])));
             // two bodies that print alike ({:.3}) but differ
             a.push(Act::Tok(Tree::L(vec![Tree::ins("CODE.QUOTE"), Tree::L(vec![Tree::F(1.0001), Tree::name("Y")])])));
             a.push(Act::Tok(Tree::L(vec![Tree::ins("CODE.QUOTE"), Tree::L(vec![Tree::F(1.0004), Tree::name("Y")])])));
@@ -62,6 +65,8 @@ fn alphabet(prefix: &str, t: Comp) -> Vec<Act> {
             a.push(Act::Tok(Tree::L(vec![Tree::ins("EXEC.DEFINE"), Tree::I(7)])));
             a.push(Act::Tok(Tree::L(vec![Tree::ins("EXEC.DEFINE"), Tree::L(vec![Tree::I(8), Tree::name("Y")])])));
             a.push(Act::Tok(Tree::L(vec![Tree::ins("EXEC.DEFINE"), big_body()])));
+            a.push(Act::Tok(Tree::L(vec![Tree::ins("EXEC.DEFINE"), Tree::name("Y")])));
+            a.push(Act::Tok(Tree::L(vec![Tree::ins("EXEC.DEFINE"), Tree::name("X")])));
             a.push(Act::Tok(Tree::L(vec![Tree::ins("EXEC.DEFINE"), Tree::F(1.0001)])));
             a.push(Act::Tok(Tree::L(vec![Tree::ins("EXEC.DEFINE"), Tree::F(1.0004)])));
         }
@@ -193,7 +198,7 @@ pub fn run(ctx: &mut Ctx) {
             let (prefix, t) = types.iter().find(|(p, _)| *p == fam).copied().unwrap_or_else(|| panic!("unknown family {}", fam));
             let acts = alphabet(prefix, t);
             // CODE and EXEC have the larger alphabets (big and print-alike bodies): a smaller depth in the thorough tier
-            let d = if ctx.tier_thorough && matches!(t, Comp::C | Comp::E) { 10 } else { d };
+            let d = if matches!(t, Comp::C | Comp::E) { if ctx.tier_thorough { 9 } else { 7 } } else { d };
             bfs(ctx, &mut real, prefix, &acts, d);
         }
     }
